@@ -275,6 +275,22 @@ func c12Exec(w *fw.Worker, c fw.Case) fw.Result {
 			r := fw.ViolatedR("livelock", fmt.Sprintf("certified livelock: the mark sent %d consecutive signals with no traveler event in between and never closed (%s on %s)", spin, cc.Name, cc.Graph), detail)
 			return &r
 		}
+		// stall certificate (bounded progress): travelers are parked inside the cycle, the stream is
+		// open, and for three consecutive 5 s intervals not a single loop event happens (an event
+		// normally takes microseconds). Covers goroutines that poll instead of blocking.
+		seq := env.rec.Seq()
+		for i := 0; i < 3; i++ {
+			time.Sleep(5 * time.Second)
+			if s2 := env.rec.Seq(); s2 != seq {
+				return nil
+			}
+		}
+		cnt = env.rec.Counts()
+		if pending := cnt["jump.to_queue"] - cnt["mark.fwd_jump"]; pending > 0 && cnt["mark.close"] == 0 {
+			detail["events"] = cnt
+			r := fw.ViolatedR("stall", fmt.Sprintf("certified stall: %d travelers are parked between jump and mark, the result stream is open, and no loop event happened during 15 s (%s on %s)", pending, cc.Name, cc.Graph), detail)
+			return &r
+		}
 		return nil
 	})
 	defer w.HangDiag.Store((func() *fw.Result)(nil))
@@ -350,10 +366,11 @@ func c12Class(name string) string {
 
 func init() {
 	fw.Register(&fw.Property{
-		ID:          "C12",
-		Race:        true,
-		WorkerProcs: -1,
-		Rule:        "loop programs V(starts).set(c,0).as(s).mark(m).BODY.increment($s.c).has(lt($s.c,K)).jump(m,COND,EMIT).TAIL with 8 order-preserving bodies x 3 conditions x emit on/off x K in 0..4, two jumps to one mark, a jump placed before its mark, on chain/cycle/binary tree/star/K4/K5 (K6 in thorough; up to several thousand travelers in flight, beyond the 50/100/1000/5000 capacities); each (program, graph) runs under GOMAXPROCS in {1,2,4,16} x 15 delay profiles at the verifhook points (none, yield everywhere, two random profiles, a long sleep at exactly one site for each of 9 sites) in a -race build. Oracle: result multiset = worklist interpreter of the iterative definition; closure (livelock/deadlock certificate otherwise); conservation of travelers in the recorded event trace (jump.to_queue = queue.in = queue.out = mark.fwd_jump at the end). Non-trivial = non-empty expected result and at least one traveler went round the cycle; distinct = distinct (program, graph, interleaving signature), the signature being a hash of the recorded event order.",
+		ID:                "C12",
+		Race:              true,
+		ScheduleDependent: true,
+		WorkerProcs:       -1,
+		Rule:              "loop programs V(starts).set(c,0).as(s).mark(m).BODY.increment($s.c).has(lt($s.c,K)).jump(m,COND,EMIT).TAIL with 8 order-preserving bodies x 3 conditions x emit on/off x K in 0..4, two jumps to one mark, a jump placed before its mark, on chain/cycle/binary tree/star/K4/K5 (K6 in thorough; up to several thousand travelers in flight, beyond the 50/100/1000/5000 capacities); each (program, graph) runs under GOMAXPROCS in {1,2,4,16} x 15 delay profiles at the verifhook points (none, yield everywhere, two random profiles, a long sleep at exactly one site for each of 9 sites) in a -race build. Oracle: result multiset = worklist interpreter of the iterative definition; closure (livelock/deadlock certificate otherwise); conservation of travelers in the recorded event trace (jump.to_queue = queue.in = queue.out = mark.fwd_jump at the end). Non-trivial = non-empty expected result and at least one traveler went round the cycle; distinct = distinct (program, graph, interleaving signature), the signature being a hash of the recorded event order.",
 		Assumptions: []string{
 			"loop bodies are order-preserving steps (both()/bothE() let the termination signal overtake travelers and are excluded by the property text)",
 			"counters live in a mark ($s.c) as in the documentation example; counters on the current element are aliased between travelers and unspecified",
